@@ -133,12 +133,12 @@ func (c *Ctx) Next() bool {
 	return c.Mine(i)
 }
 
-func (c *Ctx) Eval(n int64)              { c.P.Evaluations += n }
-func (c *Ctx) Distinct(n int64)          { c.P.Distinct += n }
-func (c *Ctx) Add(k string, n int64)     { c.P.Counters[k] += n }
-func (c *Ctx) Flag(k string, v bool)     { old, ok := c.P.Flags[k]; c.P.Flags[k] = v && (old || !ok) }
-func (c *Ctx) Note(k, v string)          { c.P.Notes[k] = v }
-func (c *Ctx) Outcome(k string)          { c.P.Outcomes[k]++ }
+func (c *Ctx) Eval(n int64)          { c.P.Evaluations += n }
+func (c *Ctx) Distinct(n int64)      { c.P.Distinct += n }
+func (c *Ctx) Add(k string, n int64) { c.P.Counters[k] += n }
+func (c *Ctx) Flag(k string, v bool) { old, ok := c.P.Flags[k]; c.P.Flags[k] = v && (old || !ok) }
+func (c *Ctx) Note(k, v string)      { c.P.Notes[k] = v }
+func (c *Ctx) Outcome(k string)      { c.P.Outcomes[k]++ }
 func (c *Ctx) Max(k string, v int64) {
 	if v > c.P.Maxes[k] {
 		c.P.Maxes[k] = v
@@ -265,9 +265,10 @@ func envInt(k string, def int64) int64 {
 }
 
 // Main is the entry point of the vrun binary.
-//   vrun <prop>                      parent: shards, merges, writes evidence, prints verdict
-//   vrun <prop> -replay <file>       re-executes one recorded case
-//   (internal) VERIF_SHARD=i/N VERIF_PARTIAL=<file> vrun <prop>
+//
+//	vrun <prop>                      parent: shards, merges, writes evidence, prints verdict
+//	vrun <prop> -replay <file>       re-executes one recorded case
+//	(internal) VERIF_SHARD=i/N VERIF_PARTIAL=<file> vrun <prop>
 func Main(flavour string) {
 	debug.SetPanicOnFault(true)
 	if len(os.Args) < 2 {
